@@ -18,8 +18,8 @@
 // @opts max_steps=30000000
 // @reach params.read
 // @funcs Phreeqc::read_gas_binary_parameters; Phreeqc::calc_gas_binary_parameter; Phreeqc::get_option
-// @bounds a GAS_BINARY_PARAMETERS block of 1..2 lines read by the real input reader; pair given in either order (case split); the coefficient is a symbolic real in [-0.5,0.9]
-// @oracle the interaction coefficient is a property of the unordered pair: after the block is read, lookups (gas1,gas2) and (gas2,gas1) both return 1 - k, for the pair as written and for a second pair; unrelated pairs keep their default
+// @bounds a GAS_BINARY_PARAMETERS block of 1..3 lines read by the real input reader; pair given in either order, a second pair, or the same pair defined again in the other order (case split); the coefficient is a symbolic real in [-0.5,0.9]
+// @oracle the interaction coefficient is a property of the unordered pair: after the block is read, lookups (gas1,gas2) and (gas2,gas1) both return 1 - k, for the pair as written and for a second pair; a later definition of a pair replaces the earlier one (as a GAS_BINARY_PARAMETERS block in the input replaces the database's value); unrelated pairs keep their default
 // @stubs PHRQ_io::error_msg / warning_msg / output_msg / echo_msg (events); the engine object is really constructed
 // @outside the mixing rule that uses the coefficient (C19.pr_mixture_two_routes)
 #include "Phreeqc.h"
@@ -93,11 +93,12 @@ extern "C" void vfh_C19_binary_params(void)
 	PHRQ_io io;
 	Phreeqc *p = new Phreeqc(&io);
 	p->do_initialize();
-	int order = (int) vf_int("order_as_written", 0, 1), lines = (int) vf_int("lines", 1, 2);
+	int order = (int) vf_int("order_as_written", 0, 1), lines = (int) vf_int("lines", 1, 3);
 	double k = vf_double("k", -0.5, 0.9), k2 = vf_double("k_second_pair", -0.5, 0.9);
 	std::ostringstream os; os.precision(17);
 	os << (order ? "CH4(g) CO2(g) " : "CO2(g) CH4(g) ") << k << "\n";
 	if (lines == 2) os << "H2O(g) CO2(g) " << k2 << "\n";
+	if (lines == 3) os << (order ? "CO2(g) CH4(g) " : "CH4(g) CO2(g) ") << k2 << "\n";      /* the same pair again, other order: the later line is in force */
 	os << "END\n";
 	std::string text = os.str();
 	std::istringstream is(text);
@@ -105,14 +106,15 @@ extern "C" void vfh_C19_binary_params(void)
 	int rv = p->read_gas_binary_parameters();
 	vf_reach("params.read");
 	vf_check("params.no_errors", g_err == 0 && p->input_error == 0);
-	vf_close("params.as_written", p->calc_gas_binary_parameter(order ? "CH4(g)" : "CO2(g)", order ? "CO2(g)" : "CH4(g)"), 1.0 - k, 1e-12, 0);
-	vf_close("params.other_order", p->calc_gas_binary_parameter(order ? "CO2(g)" : "CH4(g)", order ? "CH4(g)" : "CO2(g)"), 1.0 - k, 1e-12, 0);
+	double kk = lines == 3 ? k2 : k;
+	vf_close(lines == 3 ? "params.redefinition_in_force" : "params.as_written", p->calc_gas_binary_parameter(order ? "CH4(g)" : "CO2(g)", order ? "CO2(g)" : "CH4(g)"), 1.0 - kk, 1e-12, 0);
+	vf_close(lines == 3 ? "params.redefinition_in_force_other_order" : "params.other_order", p->calc_gas_binary_parameter(order ? "CO2(g)" : "CH4(g)", order ? "CH4(g)" : "CO2(g)"), 1.0 - kk, 1e-12, 0);
 	if (lines == 2)
 	{
 		vf_close("params.second_pair", p->calc_gas_binary_parameter("H2O(g)", "CO2(g)"), 1.0 - k2, 1e-12, 0);
 		vf_close("params.second_pair_other_order", p->calc_gas_binary_parameter("CO2(g)", "H2O(g)"), 1.0 - k2, 1e-12, 0);
 	}
-	else
+	else if (lines == 1)
 		vf_close("params.default_kept", p->calc_gas_binary_parameter("CO2(g)", "H2O(g)"), 0.81, 0, 0);
 	vf_close("params.unrelated_pair", p->calc_gas_binary_parameter("N2(g)", "CH4(g)"), 1.0, 0, 0);
 }
